@@ -10,6 +10,7 @@ import rules_stats2 as rs2
 import rules_mbuilder as rmb
 import rules_model as rm
 import rules_panic as rpn
+import shapes
 
 BOTH = ("default", "parallel")
 
@@ -68,6 +69,8 @@ PROPS["C08"]["rules"] += [
     ("R-PANIC-SITES", rpn.rule_panic_sites, {}),
     ("R-LOOPS-BOUNDED", rpn.rule_loops_bounded, {}),
     ("R-ERR-DISCIPLINE", rules_err.rule_err_discipline, {}),
+    ("R-SHAPES", shapes.rule_shapes, {}),
+    ("R-PROBLEM-BUILD-TABLE", rp2.rule_problem_build_table, {}),
 ]
 PROPS["C08"]["explanation"] = ("Three clauses on the no-panic cone (local call graph from build/set_params/residuals/jacobian/fit/fit_with_statistics/statistics accessors/"
     "SeparableModel's trait impl and the wrapped user callables): (1) every SVD constructor call receives a matrix checked all-finite after its last arithmetic (qualifier dataflow over presence conditions); "
@@ -113,6 +116,7 @@ PROPS["C03"] = {
         ("R-KAUFMAN-COL", rp2.rule_kaufman_col, {}),
         ("R-JAC-ABSENT", rules_err.rule_jac_absent, {}),
         ("R-VEC-COLMAJOR", rp.rule_vec_colmajor, {}),
+        ("R-SHAPES", shapes.rule_shapes, {}),
     ],
     "explanation": "Algebraic normal form of the value written to Jacobian column k equals +U*U^T*X - X with X = W*eval_partial_deriv(model,k)*C, U the cached left singular vectors, "
                    "k the enumerate index of the column; allocation (output_len*ncols(Y_w)) x parameter_count; same flattening as the residuals; Some(J) only through the Ok edge of the collected column results.",
@@ -165,6 +169,7 @@ PROPS["C07"] = {
         ("R-SETTER-FRAME", rp2.rule_setter_frame, {}),
         ("R-CTOR-SIBLINGS", rp2.rule_ctor_siblings, {}),
         ("R-COEF-SOLVE", rp.rule_coef_solve, {}),
+        ("R-SHAPES", shapes.rule_shapes, {}),
     ],
     "explanation": "Single- and multi-right-hand-side problems share one code path (no body uses the const generics MRHS/PAR as a value); single-rhs observations are only reshaped to N x 1; "
                    "coefficients, residuals and Jacobian columns are products with the data/coefficient matrix on the right (columns never mixed) and residuals and every Jacobian column use the same column-major flattening, so block s belongs to column s.",
